@@ -21,6 +21,19 @@ PASS_CALLS = ("clone", "cloned", "copied", "deref", "borrow", "as_ref", "to_owne
               "new", "hex", "decode", "fmt", "format", "must_use", "unwrap", "as_str", "deref_mut", "new_display", "new_debug")
 
 
+def closure_of_arg(prog, f, a):
+    """The closure body passed as call argument `a` of f (a non-capturing closure constant or a local closure value)."""
+    from mir import op_const
+    c = op_const(a) if a.get("k") == "const" else None
+    cl = c.get("closure") if c else None
+    al = op_local(a)
+    if cl is None and al is not None:
+        for _, _, st in f.stmts():
+            if st["pl"]["l"] == al and st["rv"]["k"] == "agg" and st["rv"].get("agg") == "closure":
+                cl = st["rv"]["closure"]
+    return prog.fns.get(cl) if cl else None
+
+
 def fields_read_into(f, fl, locals_):
     out = set()
     for bb, i, s in f.stmts():
@@ -251,7 +264,9 @@ def run(tier="quick", replay=None):
         import inline
         _fe0 = fe
         _bp = inline.default_pred(prog, _fe0)
-        fe = inline.inlined(prog, _fe0, pred=lambda g: _bp(g) and inline.same_module(_fe0, g) and g.path != _fe0.path and len(g.blocks) <= 80, depth=2)
+        # ... and so are small accessor methods of the code generator state (`c.defun_code(name)` for `c.defuns.get(name)`)
+        _acc = lambda g: g.kind in ("Fn", "AssocFn") and g.path.startswith("compiler::comptypes::PrimaryCodegen::") and len(g.blocks) <= 40
+        fe = inline.inlined(prog, _fe0, pred=lambda g: g.path != _fe0.path and ((_bp(g) and inline.same_module(_fe0, g) and len(g.blocks) <= 80) or _acc(g)), depth=2)
         fl = Flow(fe)
         gets = []
         other_gets = []
@@ -287,7 +302,27 @@ def run(tier="quick", replay=None):
                     calls = sorted({(callee_of(tt) or "?").rsplit("::", 1)[-1] for x in src - fl.back_pure([op_local(t["args"][0]) or -99])
                                     for _, tt in fl.call_defs.get(x, [])})
                     rewrites = [c for c in calls if c not in PASS_CALLS]
-                    ok = "code" in fields_read_into(fe, fl, src) and not rewrites
+                    extra_fields = set()
+                    if any(c in ("map", "and_then") for c in rewrites):
+                        # `defuns.get(name).map(|d| d.code.clone())`: a combinator whose closure only projects/clones
+                        pure_map = True
+                        for x in src:
+                            for _, tt in fl.call_defs.get(x, []):
+                                if (callee_of(tt) or "?").rsplit("::", 1)[-1] not in ("map", "and_then"):
+                                    continue
+                                for a in tt["args"][1:]:
+                                    g = closure_of_arg(prog, fe, a)
+                                    if g is None:
+                                        pure_map = False
+                                        continue
+                                    gcalls = {(callee_of(t3) or "?").rsplit("::", 1)[-1] for _, t3 in g.calls()}
+                                    if [c for c in gcalls if c not in PASS_CALLS]:
+                                        pure_map = False
+                                    gfl2 = Flow(g)
+                                    extra_fields |= fields_read_into(g, gfl2, gfl2.back_pure([0]))
+                        if pure_map:
+                            rewrites = [c for c in rewrites if c not in ("map", "and_then")]
+                    ok = "code" in (fields_read_into(fe, fl, src) | extra_fields) and not rewrites
                     R.check(ok, "R13.O3", "R13.O3|defun-code-unchanged", fe.loc(b2),
                             "auto: env entry for a defun = defuns[name].code through %s only" % (calls or ["moves"]),
                             "finalize_env_ lays out something other than the stored (hashed) code for a defun: calls on the way %s" % rewrites,
